@@ -21,7 +21,7 @@ ID = 'C07'
 PROPS_FILE = 'theories/Props/C07.v'
 PROPS_MODULE = 'Props.C07'
 COQ_TARGETS = ['theories/Extract/ExtractC07.vo']
-REQUIRED_THEOREMS = ['C07_refines_structural_partial', 'C07_refines_partial', 'C07_cycles_by_identity', 'C07_refines_format_partial',
+REQUIRED_THEOREMS = ['C07_refines_partial', 'C07_refines_format_partial',
                      'C07_spec_functional', 'C07_limit_reported_once',
                      'C07_term_args_scoped', 'C07_unknown_reference_once', 'C07_unknown_reference_once_model',
                      'C07_unknown_function_reported', 'C07_select_first_match']
@@ -38,8 +38,8 @@ TRUSTED = [
     'the extracted model and the real bundle, and to the property text by an independent Python resolver (props/c07_spec.py)',
     'the resolver model (Bundle/ResolverModel.v) is a hand transliteration validated by the correspondence run (see C06)',
     'data-level definitions shared by model and specification: the AST, FluentValue/FluentNumber/NUMBER/plural operands (Number.v, C12), '
-    'the bundle as an association id -> entry with first registration winning (C10), FluentArgs as a keyed map (C11), structural equality of '
-    'patterns for cycle detection',
+    'the bundle as an association id -> entry with first registration winning (C10), FluentArgs as a keyed map (C11); the identity of a pattern '
+    'object of the bundle is its place (term?, id, attribute) in the model and its name in the specification',
     'external code as parameters: registered functions, transform, formatter, CLDR rules, custom-type printing, unescape_unicode, f64::from_str',
 ]
 ASSUMPTIONS = [
@@ -47,10 +47,6 @@ ASSUMPTIONS = [
     'cache_ok rules c: every plural-rules object in the bundle\'s memoizer computes what a fresh one computes (C08/C14 invariant)',
     'no_marks_in_values (only when use_isolating): no selector / call argument is a message or term reference or a nested placeable — '
     'known finding D23 (C09); nothing is assumed with isolation off',
-    'no_equal_patterns m (only for the property\'s own reading of "cycle", C07_refines_partial / C07_refines_format_partial): different entries '
-    'of the bundle have structurally different patterns; without it Scope::track (travelled.contains compares patterns with ==) can report a '
-    'cycle where there is none — NEW finding with machine-checked witness C07_false_cycle_witness, reproduced on the Rust code '
-    '(corpus/C07/false_cycle.case); C07_refines_structural_partial (the reading that follows the code) needs no such hypothesis',
     'PARTIAL: TooManyPlaceables not among the reported errors (see PARTIAL)',
 ]
 PARTIAL = ('C07_refines_partial / C07_refines_format_partial cover every run that does not reach the placeable limit (cycles, value-less '
@@ -82,8 +78,7 @@ MANIFEST = {
             'C07_select_first_match) as theorems with machine-checked witnesses. The model is tied to the Rust resolver by running the '
             'extracted model and the real bundle on the same cases; an independent Python resolver checks the real output.',
     'note': 'Partial: runs that reach the placeable limit are outside the specification (only the error accounting is proved). Excluded '
-            'classes with recorded witnesses: D23 (isolation marks in selector/argument values, isolating bundles only), the new false-cycle '
-            'class (two entries with equal patterns). Trusted: Coq kernel, extraction, the hand transliteration (validated by the differential run), '
+            'class with a recorded witness: D23 (isolation marks in selector/argument values, isolating bundles only). Trusted: Coq kernel, extraction, the hand transliteration (validated by the differential run), '
             'the specification as the reading of the property (validated by the repository\'s fixtures and the Python resolver).',
     'technique': 'Rocq proof (refinement of an executable model to a relational big-step specification, induction on fuel) + differential '
                  'correspondence check + implementation-only oracle (independent resolver in Python, maintainers\' fixtures)',
@@ -363,8 +358,8 @@ FALSE_CYCLE = ('-a = { $k ->\n    [1] { -b(k: 2) }\n   *[other] end\n }\n'
 
 
 def gen_false_cycle(rng, tier):
-    """different entries with the SAME pattern text, one referring to the other conditionally: the finding class
-    (Scope::track compares patterns structurally).  Tolerated / reported as a known finding, see oracle()."""
+    """different entries with the SAME pattern text, one referring to the other conditionally: no cycle (regression of
+    D31: Scope::track compared patterns structurally)."""
     cs = [Case([FALSE_CYCLE], msg(e), None, iso=False) for e in ('e', 'f', 'g')]
     for sel, a in (('$k', None), ('NUMBER($k)', None)):
         body = '{ %s ->\n    [1] x{ -t2(k: 2) }y\n    [2] two\n   *[other] end\n }' % sel
@@ -386,7 +381,7 @@ def generate(rng, tier):
     yield ('missing-reference-at-every-position', G.render(gen_missing_positions(rng, tier)))
     yield ('selects-every-key-order', G.render(gen_selects(rng, tier)))
     yield ('functions-record-arguments', G.render(gen_functions(rng, tier) + gen_attributes(rng, tier) + witnesses()))
-    yield ('false-cycle-class', G.render(gen_false_cycle(rng, tier)))
+    yield ('equal-patterns-no-cycle', G.render(gen_false_cycle(rng, tier)))
     # the shared resolver generators (C06): the oracle decides what it can (English plurals, plain numbers) and skips the rest
     yield ('shared-missing-references', G.render(G.gen_missing(rng, tier)))
     yield ('shared-reference-graphs', G.render(G.gen_graphs(rng, 'quick')))
@@ -405,7 +400,7 @@ project = G.project
 # ---------------------------------------------------------------------------------------------
 # the oracle
 
-STATS = {'decided': 0, 'undecided': 0, 'limit': 0, 'fixture_asserts_checked': 0, 'false_cycle_class': 0}
+STATS = {'decided': 0, 'undecided': 0, 'limit': 0, 'fixture_asserts_checked': 0}
 
 
 def display_error(e):
@@ -428,7 +423,7 @@ def display_error(e):
     return t
 
 
-def build_resolver(c, fixture, structural=False):
+def build_resolver(c, fixture):
     cfg = c[1]
     b = S.Bundle()
     if fixture:
@@ -447,8 +442,7 @@ def build_resolver(c, fixture, structural=False):
         for kv in c[4][1:]:
             a[kv[0]] = S.decode_value(kv[1])
     return S.Resolver(b, a, transform=cfg[2] if cfg[2] != b'none' else None, formatter=cfg[3],
-                      locale=cfg[5][0] if cfg[5] else b'en', functions=S.fixture_function if fixture else S.bundle_run_function,
-                      structural_cycles=structural), b
+                      locale=cfg[5][0] if cfg[5] else b'en', functions=S.fixture_function if fixture else S.bundle_run_function), b
 
 
 def pick(bundle, all_trees, entry):
@@ -465,9 +459,9 @@ def pick(bundle, all_trees, entry):
     return None
 
 
-def expected(c, fixture, structural=False):
+def expected(c, fixture):
     """-> ('ok', text, errors, calls) | ('limit', errors so far) | ('undecided', why) | ('missing',)"""
-    r, b = build_resolver(c, fixture, structural)
+    r, b = build_resolver(c, fixture)
     p = pick(b, [x[2] for x in c[2]], c[3])
     if p is None:
         return ('missing',)
@@ -590,40 +584,14 @@ def oracle(case, out):
             # the bundle with isolation flipped: when the case isolates, this is the non-isolating run
             if iso or not G.resolve_position_refs(c[2]):
                 runs.append(('format_pattern (isolation %s)' % ('off' if iso else 'on'), core['alt'], True))
-    why = None
     for what, (text, errs), strip in runs:
         why = compare_run(what, exp, text, errs, strip)
         if why is not None:
-            break
-    if why is None and exp[0] == 'ok' and not d23 and not string_formatter:
+            return why
+    if exp[0] == 'ok' and not d23 and not string_formatter:
         why = compare_calls(exp, core['calls'])
-    if why is None:
-        return None
-    # Is this the false-cycle class?  (a pattern structurally equal to one that is being expanded is taken for a
-    # cycle by Scope::track.)  Decide by input class: the structural reading predicts what the implementation did.
-    exp_s = expected(c, fixture, structural=True)
-    if exp_s != exp and exp_s[0] not in ('undecided', 'missing'):
-        ok_s = all(compare_run(what, exp_s, text, errs, strip) is None for what, (text, errs), strip in runs)
-        if ok_s:
-            STATS['false_cycle_class'] = STATS.get('false_cycle_class', 0) + 1
-            fid = false_cycle_finding()
-            if fid is None:
-                return None          # class reported to the lead, not yet registered in known_findings.json: tolerated
-            return 'false cycle: ' + why
-    return why
-
-
-def false_cycle_finding():
-    """id of the registered finding for the false-cycle class, if known_findings.json has one for C07"""
-    for f in engine.load_known().get('findings', []):
-        if (f.get('property') == ID or ID in f.get('also', [])) and 'structural' in (f.get('class', '') + f.get('what', '')):
-            return f['id']
-    return None
-
-
-def classify(case, why, out=None):
-    if why.startswith('false cycle: '):
-        return false_cycle_finding()
+        if why is not None:
+            return why
     return None
 
 
@@ -653,8 +621,8 @@ if __name__ == '__main__':
             for line in G.render(witnesses()):
                 f.write(line + '\n')
         with open(os.path.join(d, 'false_cycle.case'), 'w') as f:
-            f.write('; NEW FINDING: two different terms with the same pattern text; -a(k: 1) refers to -b(k: 2), which is not being expanded and prints "end";\n'
-                    '; Scope::track compares patterns structurally and reports Cyclic, printing {-b}.  Props/C07.v C07_false_cycle_witness.\n')
+            f.write('; D31 (fixed by 2e7cfb6) regression: two different terms with the same pattern text; -a(k: 1) refers to -b(k: 2), which is not being\n'
+                    '; expanded and prints "end" (Scope::track compared patterns structurally: {-b} + Cyclic).  Props/C07.v C07_example_equal_patterns_no_cycle.\n')
             for line in G.render(gen_false_cycle(None, 'quick')[:3]):
                 f.write(line + '\n')
         print('written', os.path.join(d, 'witnesses.case'))
